@@ -166,7 +166,11 @@ where
         let mut k = [0u8; 1];
         reader.read_exact(&mut k)?;
         let k = u8::from_le_bytes(k);
-        if k as u32 > F::S {
+        // The extended evaluation domain (2^k times the quotient degree, rounded up to a
+        // power of two) must fit in the 2-adicity of the field.
+        let extension_bits =
+            (cs.degree() as u64).saturating_sub(1).next_power_of_two().trailing_zeros();
+        if k as u32 + extension_bits > F::S {
             return Err(io::Error::new(
                 io::ErrorKind::InvalidData,
                 format!("circuit size value (k): {} exceeds maxium: {}", k, F::S),
